@@ -1287,7 +1287,20 @@ fn run_replsel(ctx: &mut Ctx, buf: usize, ways: usize, compress: bool, cleanup: 
     if strs {
         ctx.label("elem=Vec<u8>");
         // big-endian bytes without leading zeros: variable length, many shared prefixes
-        let input: Vec<Vec<u8>> = keys.iter().map(|k| k.to_be_bytes().iter().copied().skip_while(|b| *b == 0).collect()).collect();
+        let mut input: Vec<Vec<u8>> = keys.iter().map(|k| k.to_be_bytes().iter().copied().skip_while(|b| *b == 0).collect()).collect();
+        if (buf + ways) % 8 == 0 {
+            // one case in eight: every eleventh element (at most 12 of them) is 64-105 KiB long --
+            // records larger than any read-ahead / staging buffer of the run files
+            ctx.label("elem=Vec<u8>+records>64KiB");
+            let mut made = 0;
+            for (i, e) in input.iter_mut().enumerate() {
+                if i % 11 == 0 && made < 12 {
+                    let pad = 65_520 + (keys[i] % 40_000) as usize;
+                    e.extend(std::iter::repeat((keys[i] as u8) | 1).take(pad));
+                    made += 1;
+                }
+            }
+        }
         replsel_generic(ctx, &dir, cfg, cmp, twice, input, cmp_len_bytes, std::mem::size_of::<Vec<u8>>());
     } else {
         ctx.label("elem=u64");
